@@ -5,3 +5,109 @@
 
 // owner: group a1. `super::super` is the repository module `algorithm::kalman`.
 use super::super::*;
+
+// ---- read-only views of private controller state (C01, C02, C06) ----
+
+pub fn in_startup<C: NtpClock>(c: &KalmanClockController<C>) -> bool {
+    c.in_startup
+}
+pub fn freq_offset<C: NtpClock>(c: &KalmanClockController<C>) -> f64 {
+    c.freq_offset
+}
+pub fn desired_freq<C: NtpClock>(c: &KalmanClockController<C>) -> f64 {
+    c.desired_freq
+}
+pub fn timedata<C: NtpClock>(c: &KalmanClockController<C>) -> TimeSnapshot {
+    c.timedata
+}
+pub fn source_count<C: NtpClock>(c: &KalmanClockController<C>) -> usize {
+    c.sources.len()
+}
+
+// ---- direct drive of the private steering routines (mode (c) of E-CLK) ----
+
+pub fn steer_offset<C: NtpClock>(
+    c: &mut KalmanClockController<C>,
+    change: f64,
+    freq_delta: f64,
+) -> InternalStateUpdate<KalmanControllerMessage> {
+    c.steer_offset(change, freq_delta)
+}
+pub fn steer_frequency<C: NtpClock>(
+    c: &mut KalmanClockController<C>,
+    change: f64,
+) -> InternalStateUpdate<KalmanControllerMessage> {
+    c.steer_frequency(change)
+}
+pub fn check_offset_steer<C: NtpClock>(c: &mut KalmanClockController<C>, change: f64) {
+    c.check_offset_steer(change)
+}
+
+// ---- plain-number views of the private message types ----
+
+/// f64 view of the per-source estimate forwarded to the clock controller.
+#[derive(Debug, Clone, Copy)]
+pub struct SnapView {
+    pub offset: f64,
+    pub frequency: f64,
+    pub var00: f64,
+    pub var01: f64,
+    pub var10: f64,
+    pub var11: f64,
+    pub delay: f64,
+    pub wander: f64,
+    pub period: Option<f64>,
+    pub filter_time: NtpTimestamp,
+    pub last_update: NtpTimestamp,
+    pub source_uncertainty: NtpDuration,
+    pub source_delay: NtpDuration,
+    pub leap: NtpLeapIndicator,
+}
+
+fn view(s: &SourceSnapshot) -> SnapView {
+    SnapView {
+        offset: s.state.state.ventry(0),
+        frequency: s.state.state.ventry(1),
+        var00: s.state.uncertainty.entry(0, 0),
+        var01: s.state.uncertainty.entry(0, 1),
+        var10: s.state.uncertainty.entry(1, 0),
+        var11: s.state.uncertainty.entry(1, 1),
+        delay: s.delay,
+        wander: s.wander,
+        period: s.period,
+        filter_time: s.state.time,
+        last_update: s.last_update,
+        source_uncertainty: s.source_uncertainty,
+        source_delay: s.source_delay,
+        leap: s.leap_indicator,
+    }
+}
+
+pub fn snap_view(m: &KalmanSourceMessage) -> SnapView {
+    view(&m.inner)
+}
+
+/// What `SourceSnapshot::observe` would report for this message (same code path as
+/// `InternalSourceController::observe` for a source that has a snapshot).
+pub fn snap_observe(m: &KalmanSourceMessage) -> ObservableSourceTimedata {
+    m.inner.observe()
+}
+
+/// The controller's own copy of every source snapshot (after `progress_time`/steering): id, view, usable
+pub fn controller_sources<C: NtpClock>(c: &KalmanClockController<C>) -> Vec<(ClockId, Option<SnapView>, bool)> {
+    let mut v: Vec<_> = c
+        .sources
+        .iter()
+        .map(|(id, (s, usable))| (*id, s.as_ref().map(view), *usable))
+        .collect();
+    v.sort_by_key(|e| e.0);
+    v
+}
+
+/// (is_step, steer, time-of-frequency-change) of a controller message
+pub fn ctrl_msg_view(m: &KalmanControllerMessage) -> (bool, f64, Option<NtpTimestamp>) {
+    match &m.inner {
+        KalmanControllerMessageInner::Step { steer } => (true, *steer, None),
+        KalmanControllerMessageInner::FreqChange { steer, time } => (false, *steer, Some(*time)),
+    }
+}
